@@ -108,7 +108,7 @@ def bitOf (ind k : Nat) : Nat := (ind / 2 ^ k) % 2
     the reference library's rational factors -/
 def leafCols (o : Output) (rq : Request) : List (String × List Rat) :=
   let lmax := lmaxOf o rq.preds
-  let xb : Rat := ((o.nx / 2 : Nat) : Rat)
+  let xb (k : Nat) : Rat := ((o.nxOf k / 2 : Nat) : Rat)
   let sc (n : String) : Rat := (scaleOf Reference.unitsLib o n).factor
   let cells : List (Oct × Nat) := o.octs.flatMap fun oc =>
     if oc.owner ≤ o.ncpu && oc.level ≤ lmax then
@@ -120,7 +120,7 @@ def leafCols (o : Output) (rq : Request) : List (String × List Rat) :=
      ("dx", fun p => (1 / 2 : Rat) ^ p.1.level * o.boxlen * sc "dx")] ++
     ((List.range o.ndim).map fun k =>
       ("position_" ++ (["x", "y", "z"].getD k "?"), fun (p : Oct × Nat) =>
-        (p.1.centre.getD k 0 + (((bitOf p.2 k : Nat) : Rat) - 1 / 2) * (1 / 2 : Rat) ^ p.1.level - xb) * o.boxlen *
+        (p.1.centre.getD k 0 + (((bitOf p.2 k : Nat) : Rat) - 1 / 2) * (1 / 2 : Rat) ^ p.1.level - xb k) * o.boxlen *
           sc ("position_" ++ (["x", "y", "z"].getD k "?")))) ++
     ((List.zip (List.range o.hydroVars.length) o.hydroVars).map fun (iv : Nat × (String × Ty)) =>
       (iv.2.1, fun (p : Oct × Nat) => ((p.1.hydro.getD p.2 []).getD iv.1 0) * sc iv.2.1)) ++
